@@ -66,7 +66,7 @@ var LeafKinds = []string{
 }
 
 var WrapKinds = []string{
-	"wrap", "wrapf", "withmsg", "withmsgf", "stack", "hint", "hintf", "detail", "detailf", "safedetails", "stwrap",
+	"wrap", "wrapf", "withmsg", "withmsgf", "stack", "stackdeep", "hint", "hintf0", "detailf0", "hintf", "detail", "detailf", "safedetails", "stwrap",
 	"telemetry", "domain", "issuelink", "tags", "assertion", "mark", "secondary", "combine", "wrapferr", "wrapfgosyntax",
 	"handled", "handledmsg", "handledmsgf", "handledmsgf0", "handledsafemsg", "handleddomain", "handleddomainmsg", "domhandled", "handleassert", "assertwrap",
 	"newfw", "newfwsuffix", "httpcode", "grpccode",
@@ -76,7 +76,7 @@ var WrapKinds = []string{
 	"uwrapformatter", "uwrapsafefmt", "uopt", "uwrapfmtold", "rwrapfull", "uwrapasself", "newfwerr", "ukeymarker",
 }
 
-var MultiKinds = []string{"join", "gojoin", "goerrorfmulti", "umulti", "rmulti", "umulticause"}
+var MultiKinds = []string{"join", "gojoin", "goerrorfmulti", "umulti", "rmulti", "umulticause", "umultias"}
 
 // BarrierKinds hide their C behind a barrier.
 var BarrierKinds = []string{"handled", "handledmsg", "handledmsgf", "handledmsgf0", "handledsafemsg", "handleddomain", "handleddomainmsg", "domhandled", "handleassert", "assertwrap"}
@@ -240,7 +240,7 @@ func (g *Cfg) WrapOf(t *rapid.T, k string, c *Spec) *Spec {
 		// Newf with %w and another error-typed argument.
 		s.S = []string{str(t, "lit")}
 		s.X = []*Spec{nil}
-	case "handledmsgf0":
+	case "handledmsgf0", "hintf0", "detailf0":
 		s.S = []string{str(t, "lit")}
 	case "stwrap":
 		s.S = []string{str(t, "msg")}
@@ -291,7 +291,9 @@ func (g *Cfg) WrapOf(t *rapid.T, k string, c *Spec) *Spec {
 	case "httpcode":
 		s.I = []int{rapid.OneOf(rapid.IntRange(100, 599), rapid.Just(0)).Draw(t, "code")}
 	case "grpccode":
-		s.I = []int{rapid.IntRange(1, 16).Draw(t, "code")}
+		// codes.OK (0) is a code like any other for the annotation itself
+		// (C20 excludes it: a gRPC status with code OK is "no error")
+		s.I = []int{rapid.IntRange(0, 16).Draw(t, "code")}
 	case "ospath":
 		s.S = []string{rapid.SampledFrom([]string{"open", "read", "stat"}).Draw(t, "op"), str(t, "path")}
 	case "oslink":
@@ -308,7 +310,7 @@ func (g *Cfg) WrapOf(t *rapid.T, k string, c *Spec) *Spec {
 		s.S = []string{str(t, "hint"), str(t, "detail")}
 	case "uwrapsafefmt":
 		s.S = []string{str(t, "safe"), str(t, "msg")}
-	case "stack", "assertion", "handled", "domhandled", "handleassert", "pkgstack", "uwraptransparent":
+	case "stack", "stackdeep", "assertion", "handled", "domhandled", "handleassert", "pkgstack", "uwraptransparent":
 	default:
 		panic("WrapOf: unknown kind " + k)
 	}
@@ -334,7 +336,7 @@ func (g *Cfg) MultiOf(t *rapid.T, k string) *Spec {
 	}
 	s.X = make([]*Spec, n)
 	switch k {
-	case "goerrorfmulti", "umulti", "rmulti", "umulticause", "umulticauser":
+	case "goerrorfmulti", "umulti", "rmulti", "umulticause", "umulticauser", "umultias":
 		s.S = []string{g.Str(t, "msg")}
 	case "join", "gojoin":
 		// bit i: a nil argument precedes branch i; bit n: trailing nil.
